@@ -25,6 +25,7 @@ RULE = (
     "the library's own metric, which is monotone along the path and equal to the summed WGS84 geodesic leg lengths (1e-6 relative); "
     "prepared data holds each segment's cell labels at every depth.  Non-trivial: paths with >= 2 inside "
     "intervals, touching a hole, or with 3 waypoints."
+    ' Also: datasets at 60N and 72S, every 3-waypoint path again with a third ordinate, lazily loaded (dask) variables.'
 )
 LEVEL_TEXT = ("all 2- and 3-waypoint simple polylines over 8 dataset-derived waypoints on 6 datasets: segment/cell identity, "
               "order, exact coverage of path ∩ cells, additive lengths, per-depth values")
